@@ -117,7 +117,7 @@ func c11Run(g *GcsEmu, names []string, prefix, delim string, maxResults int) {
 		g.handleGcsListBucket(vCtx(), dontNeedUrls, w, q, "b")
 		vAssert(w.code == http.StatusOK, "list-ok")
 		var page *storage.Objects
-		for _, b := range w.bodies {
+		for _, b := range w.all() {
 			if l, ok := b.(*storage.Objects); ok {
 				page = l
 			}
